@@ -296,6 +296,143 @@ pub proof fn lemma_flat_vv_len<A, B>(a: Seq<Vec<A>>, b: Seq<Vec<B>>)
         u.emit(f, vis='pub')
     u.text('} }')
 
+    # ------------------------------------------------------------------ InputProofTargets = Vec<BatchOpeningTargets>
+    II = r'Recursive<EF>\s*for InputProofTargets<F, EF, Inner>'
+    IS = [(r'BatchOpeningTargets::<F, EF, Inner>::', 'BO::'), (r'BatchOpeningTargets::', 'BO::'), (r'Self::with_capacity', 'Vec::with_capacity')]
+    inn = u.extract(T, II, 'new', 'InputProofTargets::new')
+    inn.rewrite_re('R5', r'for (\w+) in input\.iter\(\) \{', r'for b_ in 0..input.len() { let \1 = &input[b_];', min_count=1)
+    erase(inn, 'Vec', IS)
+    inn.set_sig('R11', 'fn new<BO: Rec>(circuit: &mut CircuitBuilder, input: &Vec<BO::Input>) -> Vec<BO>')
+    inn.rewrite_re('SPEC-type', r'let mut batch_openings = Vec::with_capacity\(num_batch_openings\);', 'let mut batch_openings: Vec<BO> = Vec::with_capacity(num_batch_openings);', min_count=1)
+    inn.ensures('allocation_order_is_the_traversal_order', 'final(circuit).pubs@ == old(circuit).pubs@ + fl_pubs(ret@, ret@.len() as int) && final(circuit).privs@ == old(circuit).privs@ + fl_privs(ret@, ret@.len() as int)')
+    inn.ensures('as_many_targets_as_values', 'ret@.len() == input@.len() && fl_pubs(ret@, ret@.len() as int).len() == fl_pub_vals::<BO>(input@, input@.len() as int).len() && fl_privs(ret@, ret@.len() as int).len() == fl_priv_vals::<BO>(input@, input@.len() as int).len()')
+    HN = 'for b_ in 0..input.len()'
+    inn.at_loop_end(HN, '''proof {
+                lemma_fl_prefix(batch_openings@, vb_, b_ as int);
+                assert(circuit.pubs@ =~= old(circuit).pubs@ + fl_pubs(batch_openings@, b_ + 1)); assert(circuit.privs@ =~= old(circuit).privs@ + fl_privs(batch_openings@, b_ + 1));
+                assert forall|j: int| 0 <= j < b_ + 1 implies (#[trigger] batch_openings@[j]).pubs().len() == BO::pub_vals(&input@[j]).len() && batch_openings@[j].privs().len() == BO::priv_vals(&input@[j]).len() by { if j < b_ { assert(batch_openings@[j] == vb_[j]); } }
+            }''')
+    after_loop_binding(inn, HN, ' let ghost vb_ = batch_openings@;')
+    inn.before(HN, 'proof { assert(circuit.pubs@ =~= old(circuit).pubs@ + fl_pubs(batch_openings@, 0)); assert(circuit.privs@ =~= old(circuit).privs@ + fl_privs(batch_openings@, 0)); }')
+    inn.loop(HN, invariants=[
+        ('openings_allocated_in_order', 'batch_openings@.len() == b_ && circuit.pubs@ == old(circuit).pubs@ + fl_pubs(batch_openings@, b_ as int) && circuit.privs@ == old(circuit).privs@ + fl_privs(batch_openings@, b_ as int)'),
+        ('as_many_targets_as_values', 'forall|j: int| 0 <= j < b_ ==> (#[trigger] batch_openings@[j]).pubs().len() == BO::pub_vals(&input@[j]).len() && batch_openings@[j].privs().len() == BO::priv_vals(&input@[j]).len()'),
+    ])
+    inn.bind_tail('r_', '', before_text='')
+    inn.at_end_expr('r_', 'proof { lemma_fl_lens::<BO>(r_@, input@, r_@.len() as int); }')
+    inv_ = erase(u.extract(T, II, 'get_values', 'InputProofTargets::get_values'), 'Vec', IS)
+    inv_.set_sig('R11', 'fn get_values<BO: Rec>(input: &Vec<BO::Input>) -> Vec<Fv>')
+    inv_.ensures('values_in_the_traversal_order', 'ret@ == fl_pub_vals::<BO>(input@, input@.len() as int)')
+    vals_loop(inv_, 'i_input', 'input', 'BO', 'pub', 'Seq::<Fv>::empty()')
+    inp_ = erase(u.extract(T, II, 'get_private_values', 'InputProofTargets::get_private_values'), 'Vec', IS)
+    inp_.set_sig('R11', 'fn get_private_values<BO: Rec>(input: &Vec<BO::Input>) -> Vec<Fv>')
+    inp_.ensures('values_in_the_traversal_order', 'ret@ == fl_priv_vals::<BO>(input@, input@.len() as int)')
+    vals_loop(inp_, 'i_input', 'input', 'BO', 'priv', 'Seq::<Fv>::empty()')
+    for g_ in (inv_, inp_):
+        g_.bind_tail('r_', '', before_text='')
+        g_.at_end_expr('r_', 'proof { assert(r_@ =~= Seq::<Fv>::empty() + r_@); }')
+    u.text('verus! { pub mod input_proof { use super::*;')
+    for f in (inn, inv_, inp_):
+        u.emit(f, vis='pub')
+    u.text('} }')
+
+    # ------------------------------------------------------------------ HidingFriProofTargets = (random opened values, inner FRI proof)
+    u.text('''verus! {
+pub struct HidingFriProofTargets<HO, FP> { pub random_opened_values: HO, pub inner_proof: FP }
+}''')
+    HI2 = r'Recursive<EF> for HidingFriProofTargets<F, EF, RecMmcs, InputProof, PowWitness>'
+    HS = [(r'HidingOpenedValuesTargets::<EF>::', 'HO::'), (r'HidingOpenedValuesTargets::', 'HO::'), (r'FriProofTargets::<F, EF, RecMmcs, InputProof, PowWitness>::', 'FP::'), (r'FriProofTargets::', 'FP::')]
+    hn = erase(u.extract(T, HI2, 'new', 'HidingFriProofTargets::new'), 'HidingFriProofTargets', HS)
+    hn.set_sig('R11', 'fn new<HO: Rec, FP: Rec>(circuit: &mut CircuitBuilder, input: &(HO::Input, FP::Input)) -> HidingFriProofTargets<HO, FP>')
+    hn.requires('random_openings_are_private_only', 'forall|i: HO::Input| (#[trigger] HO::pub_vals(&i)).len() == 0')
+    hn.ensures('allocation_order_is_the_traversal_order', 'final(circuit).pubs@ == old(circuit).pubs@ + ret.inner_proof.pubs() && final(circuit).privs@ == old(circuit).privs@ + (ret.random_opened_values.privs() + ret.inner_proof.privs())')
+    hn.ensures('as_many_targets_as_values', 'ret.inner_proof.pubs().len() == FP::pub_vals(&input.1).len() && ret.random_opened_values.privs().len() == HO::priv_vals(&input.0).len() && ret.inner_proof.privs().len() == FP::priv_vals(&input.1).len()')
+    hn.bind_tail('r_', '', before_text='')
+    hn.at_end_expr('r_', '''proof {
+            assert(HO::pub_vals(&input.0).len() == 0); assert(r_.random_opened_values.pubs() =~= Seq::<ExprId>::empty());
+            assert(circuit.pubs@ =~= old(circuit).pubs@ + r_.inner_proof.pubs());
+            assert(circuit.privs@ =~= old(circuit).privs@ + (r_.random_opened_values.privs() + r_.inner_proof.privs()));
+        }''')
+    hv = erase(u.extract(T, HI2, 'get_values', 'HidingFriProofTargets::get_values'), 'HidingFriProofTargets', HS)
+    hv.set_sig('R11', 'fn get_values<HO: Rec, FP: Rec>(input: &(HO::Input, FP::Input)) -> Vec<Fv>')
+    hv.ensures('values_in_the_traversal_order', 'ret@ == FP::pub_vals(&input.1)')
+    hp = erase(u.extract(T, HI2, 'get_private_values', 'HidingFriProofTargets::get_private_values'), 'HidingFriProofTargets', HS)
+    hp.set_sig('R11', 'fn get_private_values<HO: Rec, FP: Rec>(input: &(HO::Input, FP::Input)) -> Vec<Fv>')
+    hp.ensures('values_in_the_traversal_order', 'ret@ == HO::priv_vals(&input.0) + FP::priv_vals(&input.1)')
+    hp.bind_tail('r_', '', before_text='')
+    hp.at_end_expr('r_', 'proof { assert(r_@ =~= HO::priv_vals(&input.0) + FP::priv_vals(&input.1)); }')
+    u.text('verus! { pub mod hiding_fri { use super::*;')
+    for f in (hn, hv, hp):
+        u.emit(f, vis='pub')
+    u.text('} }')
+
+    # ------------------------------------------------------------------ leaves: Witness, HashProofTargets, HidingHashProofTargets
+    u.text('''verus! {
+impl CircuitBuilder {
+    /// one fresh public input (ASSUMED)
+    #[verifier::external_body]
+    pub fn alloc_public_input(&mut self, label: &'static str) -> (r: ExprId) ensures final(self).pubs@ == old(self).pubs@.push(r), final(self).privs@ == old(self).privs@ { unimplemented!() }
+}
+pub struct Witness { pub witness: Target }
+pub struct HashProofTargets<const DIGEST_ELEMS: usize> { pub hash_proof_targets: Vec<[Target; DIGEST_ELEMS]> }
+pub struct HidingHashProofTargets { pub salts: Vec<Vec<Target>> }
+}''')
+    WI = r'impl<F: Field, EF: ExtensionField<F>> Recursive<EF> for Witness<F>'
+    ES = [(r'EF::from\(', 'ef_from(')]
+    wn = erase(u.extract(T, WI, 'new', 'Witness::new'), 'Witness', ES)
+    wn.set_sig('R11', 'fn new(circuit: &mut CircuitBuilder, _input: &Fv) -> Witness')
+    wn.ensures('one_public_input', 'final(circuit).pubs@ == old(circuit).pubs@ + seq![ret.witness] && final(circuit).privs@ == old(circuit).privs@')
+    wn.bind_tail('r_', '', before_text='')
+    wn.at_end_expr('r_', 'proof { assert(circuit.pubs@ =~= old(circuit).pubs@ + seq![r_.witness]); }')
+    wv = erase(u.extract(T, WI, 'get_values', 'Witness::get_values'), 'Witness', ES)
+    wv.set_sig('R11', 'fn get_values(input: &Fv) -> Vec<Fv>')
+    wv.ensures('one_public_value', 'ret@ == seq![*input]')
+    wv.bind_tail('r_', '', before_text='')
+    wv.at_end_expr('r_', 'proof { assert(r_@ =~= seq![*input]); }')
+    HPI = r'Recursive<EF>\s*for HashProofTargets<F, DIGEST_ELEMS>'
+    hpn = erase(u.extract(T, HPI, 'new', 'HashProofTargets::new'), 'HashProofTargets', ES)
+    hpn.set_sig('R11', 'fn new<const DIGEST_ELEMS: usize>(_circuit: &mut CircuitBuilder, _input: &Vec<[Fv; DIGEST_ELEMS]>) -> HashProofTargets<DIGEST_ELEMS>')
+    hpn.rewrite_re('R6', r'vec!\[\]', 'Vec::new()')
+    hpn.ensures('allocates_nothing', 'final(_circuit).pubs@ == old(_circuit).pubs@ && final(_circuit).privs@ == old(_circuit).privs@ && ret.hash_proof_targets@.len() == 0')
+    hpv = erase(u.extract(T, HPI, 'get_values', 'HashProofTargets::get_values'), 'HashProofTargets', ES)
+    hpv.set_sig('R11', 'fn get_values<const DIGEST_ELEMS: usize>(_input: &Vec<[Fv; DIGEST_ELEMS]>) -> Vec<Fv>')
+    hpv.rewrite_re('R6', r'vec!\[\]', 'Vec::new()')
+    hpv.ensures('no_public_values', 'ret@.len() == 0')
+    HHI = r'Recursive<EF>\s*for HidingHashProofTargets<F, DIGEST_ELEMS>'
+    hhn = erase(u.extract(T, HHI, 'new', 'HidingHashProofTargets::new'), 'HidingHashProofTargets', ES)
+    hhn.set_sig('R11', 'fn new<const DIGEST_ELEMS: usize>(circuit: &mut CircuitBuilder, input: &(Vec<Vec<Fv>>, Vec<[Fv; DIGEST_ELEMS]>)) -> HidingHashProofTargets')
+    hhn.ensures('salts_allocated_in_order_one_target_per_value', '''final(circuit).privs@ == old(circuit).privs@ + flat_vv(ret.salts@) && final(circuit).pubs@ == old(circuit).pubs@
+            && ret.salts@.len() == input.0@.len() && flat_vv(ret.salts@).len() == flat_vv(input.0@).len()''')
+    HS_ = 'for m0_ in 0..input.0.len()'
+    hhn.rewrite_re('SPEC-type', r'let mut v_m0_ = Vec::new\(\);', 'let mut v_m0_: Vec<Vec<Target>> = Vec::new();', min_count=1)
+    hhn.at_loop_end(HS_, 'proof { lemma_flat_vv_push(vb_, x_m0_); assert(v_m0_@ =~= vb_.push(x_m0_)); assert(circuit.privs@ =~= old(circuit).privs@ + flat_vv(v_m0_@)); assert forall|k: int| 0 <= k < m0_ + 1 implies (#[trigger] v_m0_@[k])@.len() == input.0@[k]@.len() by { if k < m0_ { assert(v_m0_@[k] == vb_[k]); } } }')
+    after_loop_binding(hhn, HS_, ' let ghost vb_ = v_m0_@;')
+    hhn.before(HS_, 'proof { assert(circuit.privs@ =~= old(circuit).privs@ + flat_vv(v_m0_@)); }')
+    hhn.loop(HS_, invariants=[
+        ('salts_allocated_in_order', 'v_m0_@.len() == m0_ && circuit.privs@ == old(circuit).privs@ + flat_vv(v_m0_@) && circuit.pubs@ == old(circuit).pubs@'),
+        ('one_target_per_value', 'forall|k: int| 0 <= k < m0_ ==> (#[trigger] v_m0_@[k])@.len() == input.0@[k]@.len()'),
+    ])
+    hhn.bind_tail('r_', '', before_text='')
+    hhn.at_end_expr('r_', 'proof { lemma_flat_vv_len(r_.salts@, input.0@); }')
+    hhp = erase(u.extract(T, HHI, 'get_private_values', 'HidingHashProofTargets::get_private_values'), 'HidingHashProofTargets', ES)
+    hhp.body = re.sub(r'input\s*\.\s*0', 'input.0', hhp.body)
+    hhp.set_sig('R11', 'fn get_private_values<const DIGEST_ELEMS: usize>(input: &(Vec<Vec<Fv>>, Vec<[Fv; DIGEST_ELEMS]>)) -> Vec<Fv>')
+    hhp.ensures('salt_values_in_order', 'ret@ == flat_vv(input.0@)')
+    HO2, HI3 = 'for i_input_0 in 0..input.0.len()', 'for i_salt in 0..salt.len()'
+    hhp.at_loop_end(HI3, 'proof { assert(salt@.take(i_salt + 1) =~= salt@.take(i_salt as int).push(salt@[i_salt as int])); assert(v0_@ =~= flat_vv(input.0@.take(i_input_0 as int)) + salt@.take(i_salt + 1)); }')
+    hhp.at_loop_end(HO2, 'proof { let row = input.0@[i_input_0 as int]; lemma_flat_vv_take(input.0@, i_input_0 as int); assert(row@.take(row@.len() as int) =~= row@); }')
+    hhp.before(HI3, 'proof { assert(*salt == input.0@[i_input_0 as int]); assert(v0_@ =~= flat_vv(input.0@.take(i_input_0 as int)) + salt@.take(0)); }')
+    hhp.before(HO2, 'proof { assert(input.0@.take(0) =~= Seq::<Vec<Fv>>::empty()); }')
+    hhp.loop(HI3, invariants=[('values_of_this_salt_so_far', 'v0_@ == flat_vv(input.0@.take(i_input_0 as int)) + salt@.take(i_salt as int) && *salt == input.0@[i_input_0 as int]')])
+    hhp.loop(HO2, invariants=[('salts_so_far', 'v0_@ == flat_vv(input.0@.take(i_input_0 as int))')])
+    hhp.bind_tail('r_', '', before_text='')
+    hhp.at_end_expr('r_', 'proof { assert(input.0@.take(input.0@.len() as int) =~= input.0@); }')
+    for modname, fs in (('witness', (wn, wv)), ('hash_proof', (hpn, hpv)), ('hiding_hash_proof', (hhn, hhp))):
+        u.text('verus! { pub mod ' + modname + ' { use super::*;')
+        for f in fs:
+            u.emit(f, vis='pub')
+        u.text('} }')
+
     u.text('verus! { pub mod query_proof { use super::*;')
     for f in (qn, qv, qp):
         u.emit(f, vis='pub')
